@@ -89,6 +89,12 @@ impl<'a> ReadAttempt<'a> {
     pub fn commit_direct(self, by: Index, ord: Ordering) {
         self.linked.commit_direct(by, ord);
     }
+
+    /// Whether this attempt was loaded as the only consumer of its stream
+    #[inline(always)]
+    pub fn is_single(&self) -> bool {
+        self.state == ReaderState::Single
+    }
 }
 
 impl Reader {
